@@ -75,7 +75,7 @@ def real_jobs(rep: Report) -> list[dict]:
                 method=method, src=src, seed=rep.seed * 101 + r,
                 threads=4 if big else 3, children=3 if big else 2, child_threads=3 if big else 2,
                 grandchild=True, min_calls=100 if big else 30, max_calls=20000,
-                p_query=0.15, p_nested=0.25, stall_s=40,
+                p_query=0.15, p_nested=0.25, stall_s=25,
             ))
     return jobs
 
@@ -215,7 +215,7 @@ def main(rep: Report, replay: dict | None) -> None:
     quick = rep.tier == "quick"
     # real runs start first (separate processes), the replays run meanwhile
     jobs = real_jobs(rep)
-    first = [c14_real.launch(j) for j in jobs[:3]]
+    first = [c14_real.launch(j) for j in jobs[:6]]
 
     cover: dict = {}
     with _pool() as ex:
@@ -242,7 +242,7 @@ def main(rep: Report, replay: dict | None) -> None:
         tr = c14_real.collect(p, outdir, job)
         tr["_job"] = {k: v for k, v in job.items() if k != "outdir"}
         traces.append(tr)
-    traces += run_real(rep, jobs[3:])
+    traces += run_real(rep, jobs[6:], parallel=6)
 
     if not quick:
         big = tlc.run_many([
